@@ -589,6 +589,23 @@ def section_errors(docs, results):
             bad.append({"fault": "row without cells", "text": t, "problem": f"{errs[:2]}"})
     except Exception as e:
         bad.append({"fault": "row without cells", "text": t, "problem": f"{type(e).__name__} escaped: {e}"})
+    # a table with many deviating rows: between one and eleven errors in either mode, each located
+    for kw in ("Given t", "Examples:"):
+        n += 1
+        head = "Feature: f\n  Scenario Outline: s\n    Given x\n" if kw == "Examples:" else "Feature: f\n  Scenario: s\n"
+        t = head + "    " + kw + "\n      | a | b |\n" + "".join(f"      | r{i} |\n" for i in range(15))
+        for stop in (False, True):
+            try:
+                st, errs = fresh_parse(t, stop=stop)
+            except Exception as e:
+                bad.append({"fault": "15 ragged rows", "text": t, "problem": f"{type(e).__name__} escaped: {e}"})
+                continue
+            if st != "errors" or not (1 <= len(errs) <= 11) or any(e[0] is None for e in errs):
+                bad.append({"fault": "15 ragged rows" + (" (stop mode)" if stop else ""), "text": t,
+                            "problem": f"{len(errs) if st == 'errors' else 'no'} errors, expected 1..11 with locations"})
+            elif stop and len(errs) != 1:
+                bad.append({"fault": "15 ragged rows (stop mode)", "text": t,
+                            "problem": f"stop-at-first-error mode raised {len(errs)} errors"})
     # a ragged table closed by a tag line whose look-ahead meets a faulty tag line: every message once
     n += 1
     t = "Feature: F\n  Scenario: S\n    Given a table\n      | a | b |\n      | c |\n    @ok\n    @bad tag\n  Scenario: T\n    Given y\n"
